@@ -3,11 +3,11 @@ CHECK_DEADLOCK FALSE
 CONSTANTS
   CL = 2
   LMs = {3}
-  Extra = {0, 1}
-  SrcLens = {7, 9}
+  Extra = {0}
+  SrcLens = {9}
   MaxOps = 4
   ConsumeNs = {2, 3}
-  ReadNs = {1}
+  ReadNs = {1, 6}
   SeekOn = TRUE
   TrackHist = TRUE
   FixSeekGap = TRUE
